@@ -22,6 +22,14 @@
 (*   query_membership   Method.query_params: membership tests only         *)
 (*   snippet_index      snippets sorted by region tag       -> total sort  *)
 (*   metadata_json      services/methods sorted by name     -> total sort  *)
+(*   required_defaults  REST table of required query fields: the request's *)
+(*                      required fields in declaration order, filtered by  *)
+(*                      membership in the query-parameter SET -> total     *)
+(*   common_resources   wrappers of file-level resource definitions: built *)
+(*                      from the request alone                 -> total    *)
+(* PURITY: a run may happen in a process that generated something before   *)
+(* (another request with the same names, or the same request): `hist`.     *)
+(* No site may read anything a previous generation left behind.            *)
 (* `Table` can be replaced by a mutant table (a site without its sort, or  *)
 (* a sort whose key has ties) which TLC must reject.                       *)
 (***************************************************************************)
@@ -29,15 +37,17 @@ EXTENDS Naturals, Sequences, FiniteSets, TLC, SequencesExt, FiniteSetsExt
 
 CONSTANTS K,          \* number of runs compared
           MaxElems,   \* container size bound
-          Mutant      \* "none" | "unsorted_site" | "tie_key"
+          Mutant      \* "none" | "unsorted_site" | "tie_key" | "set_order_defaults" | "process_memo"
 
 Sites == <<"resource_helpers", "retry_codes", "extops_imports", "extops_properties", "ref_type_imports", "python_modules",
-           "names_membership", "query_membership", "snippet_index", "metadata_json">>
+           "names_membership", "query_membership", "snippet_index", "metadata_json", "required_defaults", "common_resources">>
+Histories == {"fresh", "after_other", "after_same"}
 Discipline(s) ==
   CASE s \in {"names_membership", "query_membership"} -> "membership"
     [] s \in {"extops_imports", "ref_type_imports"} -> "sort_lines"
     [] s = "resource_helpers" /\ Mutant = "tie_key" -> "sort_key"       \* the pre-fix behaviour: sort by the short type name only
     [] s = "retry_codes" /\ Mutant = "unsorted_site" -> "none"
+    [] s = "required_defaults" /\ Mutant = "set_order_defaults" -> "none"    \* iterate the set instead of the declared fields
     [] OTHER -> "sort_total"
 
 \* an element has an identity (total order) and a coarser sort key that may tie
@@ -49,8 +59,9 @@ Perms(C) == {p \in [1..Cardinality(C) -> C] : \A i, j \in 1..Cardinality(C) : i 
 Ids(p) == [i \in 1..Len(p) |-> p[i].id]
 SortedIds(C) == SetToSortSeq({e.id : e \in C}, <)
 StableByKey(p) == SelectSeq(p, LAMBDA e : e.key = 1) \o SelectSeq(p, LAMBDA e : e.key = 2)
-Render(s, C, p) ==
-  CASE Discipline(s) = "membership" -> <<>>
+Render(s, C, p, h) ==
+  CASE Mutant = "process_memo" /\ s = "common_resources" /\ h = "after_other" -> <<0>>   \* what the earlier generation memoised
+    [] Discipline(s) = "membership" -> <<>>
     [] Discipline(s) = "sort_lines" -> SortedIds(C)
     [] Discipline(s) = "sort_total" -> SortedIds(C)
     [] Discipline(s) = "sort_key"   -> Ids(StableByKey(p))
@@ -64,8 +75,8 @@ vars == <<site, container, out, done>>
 Init == /\ site \in 1..Len(Sites) /\ container \in Containers /\ out = [r \in 1..K |-> <<>>] /\ done = FALSE
 \* one step = every run consumes the site's container under its own schedule (iteration order)
 Consume == /\ ~done
-           /\ \E ps \in [1..K -> Perms(container)] :
-                out' = [r \in 1..K |-> Render(Sites[site], container, ps[r])]
+           /\ \E ps \in [1..K -> Perms(container)], hs \in [1..K -> Histories] :
+                out' = [r \in 1..K |-> Render(Sites[site], container, ps[r], hs[r])]
            /\ done' = TRUE /\ UNCHANGED <<site, container>>
 Next == Consume
 Spec == Init /\ [][Next]_vars /\ WF_vars(Next)
